@@ -189,7 +189,8 @@ fn builder_history(ctx: &mut Ctx, rng: &mut Rng, log: &mut Vec<Value>) -> Result
             return Err(("finished-contents".into(), format!("contents of source {i}: {got:?}, model {want:?}")));
         }
     }
-    if sm.ignore_list().cloned().collect::<Vec<_>>() != m.ignore.iter().cloned().collect::<Vec<_>>() {
+    // the statement gives the ignore list no order: compare as sets
+    if sm.ignore_list().cloned().collect::<std::collections::BTreeSet<u32>>() != m.ignore.iter().cloned().collect::<std::collections::BTreeSet<u32>>() {
         return Err(("finished-ignore-list".into(), format!("ignore list {:?}, model {:?}", sm.ignore_list().collect::<Vec<_>>(), m.ignore)));
     }
     if sm.get_file() != m.file.as_deref() {
